@@ -340,8 +340,35 @@ Proof.
   induction o as [|x r IH]; intros m H; cbn [mon_outs]; [reflexivity|].
   cbn [no_ready forallb] in H. apply andb_true_iff in H as [Hx Hr]. rewrite (IH _ Hr).
   destruct x; try discriminate; cbn [mon_next]; try reflexivity.
-  - destruct (emitted e r0); reflexivity.
-  - destruct e; try reflexivity. destruct (ctx_told_idle c && m_synced m); reflexivity.
+  destruct (emitted e r0); reflexivity.
+Qed.
+
+(* ---- the sticky "shutdown began" flag of the monitor ------------------------------------- *)
+
+Definition has_ret (o : list out) : bool :=
+  existsb (fun x => match x with ORet _ _ => true | _ => false end) o.
+
+Lemma has_ret_app a b : has_ret (a ++ b) = has_ret a || has_ret b.
+Proof. apply existsb_app. Qed.
+
+Lemma mon_next_shut c m o :
+  m_shut (mon_next c m o) = match o with ORet _ _ => began c m | _ => m_shut m end.
+Proof. destruct o; cbn [mon_next m_shut]; try reflexivity. destruct (emitted e r); reflexivity. Qed.
+
+(* Only the end of a Run (ORet) raises the flag, and then to [began]. *)
+Lemma mon_outs_shut c outs : forall m,
+  m_shut (mon_outs c m outs) = if has_ret outs then began c m else m_shut m.
+Proof.
+  induction outs as [|o r IH]; intros m; cbn [mon_outs]; [reflexivity|].
+  rewrite IH. unfold began. rewrite mon_next_shut.
+  change (has_ret (o :: r)) with ((match o with ORet _ _ => true | _ => false end) || has_ret r).
+  destruct o; cbn [orb]; unfold began; destruct (has_ret r), (m_shut m), (ctx_shutdown c); reflexivity.
+Qed.
+
+Lemma mon_outs_began c outs m : began c (mon_outs c m outs) = began c m.
+Proof.
+  unfold began. rewrite mon_outs_shut. unfold began.
+  destruct (has_ret outs), (m_shut m), (ctx_shutdown c); reflexivity.
 Qed.
 
 Lemma xstep_no_ready x e x' o : xstep x e = (x', o) -> no_ready o = true.
@@ -385,19 +412,19 @@ Proof. reflexivity. Qed.
 
 Lemma chk_all_ORet c m may e :
   (e = ENone -> ctx_told_idle c && m_synced m && is_some (m_live m) = false) ->
-  (may = true -> ctx_shutdown c = true ->
+  (may = true -> began c m = true ->
      match o_until (k_obs c) with None => True | Some u => (u <? ctx_now c) = true end) ->
   chk_all c m (ORet may e) = ""%string.
 Proof.
   intros H1 H2. unfold chk_all.
   assert (Ht : chk_terminate c m (ORet may e) = ""%string).
-  { unfold chk_terminate. destruct may; [|reflexivity]. destruct (ctx_shutdown c); [|reflexivity].
+  { unfold chk_terminate. destruct may; [|reflexivity]. destruct (began c m); [|reflexivity].
     specialize (H2 eq_refl eq_refl). destruct (o_until (k_obs c)); [|reflexivity]. rewrite H2. reflexivity. }
   rewrite Ht. destruct e; cbn; try reflexivity. rewrite (H1 eq_refl). reflexivity.
 Qed.
 
-Lemma mon_next_ORet_keep c m may e :
-  (e = ENone -> ctx_told_idle c && m_synced m = false) -> mon_next c m (ORet may e) = m.
+Lemma mon_next_ORet_cur c m may e :
+  (e = ENone -> ctx_told_idle c && m_synced m = false) -> m_cur (mon_next c m (ORet may e)) = m_cur m.
 Proof. intros H. destruct e; cbn; try reflexivity. rewrite (H eq_refl). reflexivity. Qed.
 
 Lemma Inv_cur rep sl m :
@@ -413,7 +440,7 @@ Lemma chk_all_OSync c rep sl m until prefer :
   Inv rep sl m ->
   (m_owes m = true -> rep = RIdle -> is_some until = true) ->
   (is_some until = false -> m_ready m = true) ->
-  prefer = (if ctx_shutdown c then true else fst (prefer_of rep until)) ->
+  prefer = (if began c m then true else fst (prefer_of rep until)) ->
   chk_all c m (OSync rep prefer true) = ""%string.
 Proof.
   intros Hinv Ho Hrd Hp. pose proof (proj2 Hinv) as Howes.
@@ -424,7 +451,7 @@ Proof.
     - cbn. rewrite Hc. unfold hon in Hh. apply andb_true_iff in Hh as [Hd Hs].
       rewrite Hd, Hs. reflexivity. }
   assert (H3 : chk_idle_after_failure c m (OSync rep prefer true) = ""%string).
-  { unfold chk_idle_after_failure. subst prefer. destruct (ctx_shutdown c).
+  { unfold chk_idle_after_failure. subst prefer. destruct (began c m).
     - cbn. rewrite !andb_false_r. destruct rep; reflexivity.
     - destruct (is_failed rep) eqn:F.
       + destruct rep as [|d [| |[] t]]; cbn in F; try discriminate. cbn. rewrite !andb_false_r. reflexivity.
@@ -436,7 +463,7 @@ Proof.
           cbn. rewrite (Ho eq_refl eq_refl). reflexivity.
         * cbn [andb]. destruct rep as [|d st]; [rewrite (Hidle eq_refl); reflexivity|reflexivity]. }
   assert (H4 : chk_shutdown c m (OSync rep prefer true) = ""%string).
-  { unfold chk_shutdown. subst prefer. destruct (ctx_shutdown c); reflexivity. }
+  { unfold chk_shutdown. subst prefer. destruct (began c m); reflexivity. }
   rewrite H2, H3, H4. reflexivity.
 Qed.
 
@@ -463,6 +490,13 @@ Qed.
 Lemma Inv_item_begin rep sl m : Inv rep sl m -> Inv rep sl (item_begin m).
 Proof. apply Inv_ext; auto. Qed.
 
+Lemma Inv_ORet c rep sl m may e :
+  (e = ENone -> ctx_told_idle c && m_synced m = false) ->
+  Inv rep sl m -> Inv rep sl (mon_next c m (ORet may e)).
+Proof.
+  intros H. apply Inv_ext; [reflexivity|apply mon_next_ORet_cur; exact H|auto].
+Qed.
+
 Lemma Inv_sync c rep sl m p l :
   Inv rep sl m -> Inv rep sl (mon_next c m (OSync rep p l)) /\ m_synced (mon_next c m (OSync rep p l)) = true.
 Proof.
@@ -487,33 +521,36 @@ Proof.
   - injection He as <- <-. cbn. split; [reflexivity|]. split; [split; assumption|reflexivity].
 Qed.
 
-Lemma tail_err c m e : e <> ENone ->
-  chk_outs chk_all c m [ORet false e] = ""%string /\ mon_outs c m [ORet false e] = m.
+Lemma tail_err c rep sl m e : e <> ENone -> Inv rep sl m ->
+  chk_outs chk_all c m [ORet false e] = ""%string /\ Inv rep sl (mon_outs c m [ORet false e]).
 Proof.
-  intros He. cbn [chk_outs mon_outs]. rewrite chk_all_ORet, mon_next_ORet_keep; try (intros; congruence).
-  auto.
+  intros He Hi. cbn [chk_outs mon_outs]. rewrite chk_all_ORet; try (intros; congruence).
+  split; [reflexivity|]. apply Inv_ORet; [intros; congruence|exact Hi].
 Qed.
 
 Lemma run_step_ok s m r s' o ob :
-  Inv (s_rep s) (s_slot s) m -> run_step s r = (s', o) -> o_until ob = s_until s' ->
+  Inv (s_rep s) (s_slot s) m -> m_shut m = s_cancelled s ->
+  run_step s r = (s', o) -> o_until ob = s_until s' ->
   chk_outs chk_all (mkCtx (ERun r) ob) (item_begin m) o = ""%string
   /\ Inv (s_rep s') (s_slot s') (mon_outs (mkCtx (ERun r) ob) (item_begin m) o).
 Proof.
-  intros Hinv Hr Hob. set (c := mkCtx (ERun r) ob). set (m0 := item_begin m).
+  intros Hinv Hshut Hr Hob. set (c := mkCtx (ERun r) ob). set (m0 := item_begin m).
   assert (Hinv0 : Inv (s_rep s) (s_slot s) m0) by (apply Inv_item_begin; exact Hinv).
   assert (Hs0 : m_synced m0 = false) by reflexivity.
   assert (Hr0 : m_ready m0 = false) by reflexivity.
-  assert (Hsh : ctx_shutdown c = r_shutdown r) by reflexivity.
+  assert (Hbg0 : began c m0 = sd_sync s r).
+  { unfold began, sd_sync, sd_top. change (m_shut m0) with (m_shut m). rewrite Hshut.
+    change (ctx_shutdown c) with (r_shutdown r || r_late r). apply orb_assoc. }
   assert (Hnow : ctx_now c = r_now r) by reflexivity.
   assert (Hobs : k_obs c = ob) by reflexivity.
-  clearbody m0. clear Hinv m.
+  clearbody m0. clear Hinv Hshut m.
   unfold run_step in Hr.
-  destruct (r_shutdown r && match s_until s with None => true | Some u => u <? r_now r end) eqn:E0.
+  destruct (sd_top s r && match s_until s with None => true | Some u => u <? r_now r end) eqn:E0.
   { (* may terminate at once *)
     injection Hr as <- <-. apply andb_true_iff in E0 as [E0a E0b].
-    cbn [chk_outs mon_outs]. rewrite chk_all_ORet, mon_next_ORet_keep.
-    - split; [reflexivity|exact Hinv0].
-    - intros _. rewrite Hs0. apply andb_false_r.
+    cbn [set_cancelled s_until] in Hob. cbn [set_cancelled s_rep s_slot].
+    cbn [chk_outs mon_outs]. rewrite chk_all_ORet.
+    - split; [reflexivity|]. apply Inv_ORet; [|exact Hinv0]. intros _. rewrite Hs0. apply andb_false_r.
     - intros _. rewrite Hs0, andb_false_r. reflexivity.
     - intros _ _. rewrite Hobs, Hob, Hnow. destruct (s_until s); [exact E0b|exact I]. }
   destruct (negb (is_some (s_until s)) && negb (r_ready r)) eqn:E1.
@@ -523,15 +560,16 @@ Proof.
     assert (Hm1 : mon_next c m0 OReady = m0).
     { cbn [mon_next]. change (ctx_ready c) with (r_ready r). rewrite E1b.
       destruct m0; cbn in Hr0; rewrite Hr0; reflexivity. }
+    cbn [set_cancelled s_until] in Hob. cbn [set_cancelled s_rep s_slot].
     cbn [chk_outs mon_outs]. rewrite chk_all_OReady, Hm1. cbn [cat2 is_empty].
-    rewrite chk_all_ORet, mon_next_ORet_keep; try (intros; congruence).
-    - split; [reflexivity|exact Hinv0].
+    rewrite chk_all_ORet; try (intros; congruence).
+    - split; [reflexivity|]. apply Inv_ORet; [intros; congruence|exact Hinv0].
     - intros _ _. rewrite Hobs, Hob. apply is_some_false in E1a. rewrite E1a. exact I. }
   (* the main path *)
   set (o1 := if negb (is_some (s_until s)) then [OReady] else []) in Hr.
   destruct (phase_updates (s_rep s) (s_next s) (r_now r) (s_slot s) (r_sel r)) as [[[rep next] sl] o2] eqn:Ep.
   destruct (prefer_of rep (s_until s)) as [p cur_exec] eqn:Epf.
-  set (prefer := if r_shutdown r then true else p) in Hr.
+  set (prefer := if sd_sync s r then true else p) in Hr.
   destruct (match sl with
             | Some x => let '(x', o) := xsteps x (r_sync r) in (Some x', o)
             | None => (None, [])
@@ -561,7 +599,7 @@ Proof.
     - intros Ho _. apply Hu1. rewrite <- Ho2. exact Ho.
     - intros U. unfold m2. rewrite (mon_outs_ready c o2 m1 (phase_updates_no_ready _ _ _ _ _ _ _ _ _ Ep)).
       apply Hrd1. exact U.
-    - subst prefer. rewrite Hsh, Epf. reflexivity. }
+    - subst prefer. unfold m2, m1. rewrite !mon_outs_began, Hbg0, Epf. reflexivity. }
   destruct (Inv_sync c _ _ _ prefer true Hi2) as [Hi3 Hs3].
   set (m3 := mon_next c m2 (OSync rep prefer true)) in *.
   (* o4 *)
@@ -583,7 +621,7 @@ Proof.
             (s1, pre ++ [ORet false e]) = (s', o) ->
             chk_outs chk_all c m0 o = ""%string /\ Inv (s_rep s') (s_slot s') (mon_outs c m0 o)).
   { intros s1 e He Hr1 Hs1' Heq. apply (Htail s1 [ORet false e]); [|exact Heq].
-    destruct (tail_err c m4 e He) as [Ha Hb]. rewrite Ha, Hb, Hr1, Hs1'. auto. }
+    rewrite Hr1, Hs1'. apply tail_err; [exact He|exact Hi4]. }
   destruct (r_reply r) as [|[ts|] ds] eqn:Erep.
   { eapply Herr in Hr; [exact Hr|discriminate|reflexivity|reflexivity]. }
   2:{ eapply Herr in Hr; [exact Hr|discriminate|reflexivity|reflexivity]. }
@@ -593,11 +631,11 @@ Proof.
   - (* no change *)
     destruct cur_exec.
     + apply (Htail _ [ORet false ENone]) in Hr; [exact Hr|]. cbn [chk_outs mon_outs s_rep s_slot].
-      rewrite chk_all_ORet, mon_next_ORet_keep; try (intros; rewrite Htold; reflexivity); try discriminate.
-      auto.
+      rewrite chk_all_ORet; [|intros _; rewrite Htold; reflexivity|discriminate].
+      split; [reflexivity|]. apply Inv_ORet; [intros _; rewrite Htold; reflexivity|exact Hi4].
     + apply (Htail _ [ORet true ENone]) in Hr; [exact Hr|]. cbn [chk_outs mon_outs s_rep s_slot].
-      rewrite chk_all_ORet, mon_next_ORet_keep; try (intros; rewrite Htold; reflexivity).
-      * auto.
+      rewrite chk_all_ORet; [|intros _; rewrite Htold; reflexivity|].
+      * split; [reflexivity|]. apply Inv_ORet; [intros _; rewrite Htold; reflexivity|exact Hi4].
       * intros _ _. rewrite Hobs, Hob. injection Hr as <- _. exact I.
   - (* told to go idle *)
     apply (Htail _ (stop_outs sl4 ++ [ORet true ENone])) in Hr; [exact Hr|].
@@ -620,7 +658,7 @@ Proof.
         rewrite Hls. reflexivity. }
       rewrite Hst. cbn [cat2 is_empty]. rewrite chk_all_ORet; [reflexivity| |discriminate].
       intros _. rewrite Htold. reflexivity.
-    + cbn [mon_outs]. rewrite mon_next_ORet_keep; [|intros _; rewrite Htold; reflexivity].
+    + cbn [mon_outs]. apply Inv_ORet; [intros _; rewrite Htold; reflexivity|].
       cbn [mon_next]. split; [|cbn; discriminate].
       unfold slot_inv. cbn [m_live m_cur x_id x_dig x_finished x_closed x_pending x_queue].
       split; [reflexivity|]. split.
@@ -632,23 +670,65 @@ Proof.
   - eapply Herr in Hr; [exact Hr|discriminate|reflexivity|reflexivity].
 Qed.
 
+(* ---- the context stays cancelled: model flag = monitor flag -------------------------------- *)
+
+(* Every Run ends with its return values, and afterwards the model's context
+   flag is what the second reading of ctx.Err() saw. *)
+Lemma run_step_ret_cancelled s r :
+  has_ret (snd (run_step s r)) = true /\ s_cancelled (fst (run_step s r)) = sd_sync s r.
+Proof.
+  unfold run_step.
+  destruct (sd_top s r && match s_until s with None => true | Some u => u <? r_now r end); [split; reflexivity|].
+  destruct (negb (is_some (s_until s)) && negb (r_ready r)); [split; reflexivity|].
+  destruct (phase_updates (s_rep s) (s_next s) (r_now r) (s_slot s) (r_sel r)) as [[[rep next] sl] o2].
+  destruct (prefer_of rep (s_until s)) as [p ce].
+  destruct (match sl with
+            | Some x => let '(x', o) := xsteps x (r_sync r) in (Some x', o)
+            | None => (None, [])
+            end) as [sl4 o4].
+  assert (H : forall a b, has_ret b = true -> has_ret (a ++ b) = true).
+  { intros a b Hb. rewrite has_ret_app, Hb. apply orb_true_r. }
+  destruct (r_reply r) as [|[ts|] ds]; cbn [fst snd s_cancelled];
+    try (split; [apply H; reflexivity|reflexivity]).
+  destruct ds; cbn [fst snd s_cancelled];
+    try (split; [apply H; try apply H; reflexivity|reflexivity]).
+  destruct ce; cbn [fst snd s_cancelled]; (split; [apply H; reflexivity|reflexivity]).
+Qed.
+
+Definition Shut (s : state) (m : mon) : Prop := m_shut m = s_cancelled s.
+
+Lemma step_shut s m e s' o ob :
+  Shut s m -> step s e = (s', o) -> Shut s' (mon_outs (mkCtx e ob) (item_begin m) o).
+Proof.
+  unfold Shut. intros Hsh Hs. rewrite mon_outs_shut. unfold began.
+  change (m_shut (item_begin m)) with (m_shut m). rewrite Hsh.
+  destruct e as [r|x]; cbn [step] in Hs.
+  - destruct (run_step_ret_cancelled s r) as [Hret Hc]. rewrite Hs in Hret, Hc. cbn [fst snd] in Hret, Hc.
+    rewrite Hret, Hc. change (ctx_shutdown (mkCtx (ERun r) ob)) with (r_shutdown r || r_late r).
+    unfold sd_sync, sd_top. apply orb_assoc.
+  - change (ctx_shutdown (mkCtx (EExec x) ob)) with false. rewrite orb_false_r.
+    assert (Hc : s_cancelled s' = s_cancelled s).
+    { destruct (s_slot s) as [sl|]; [destruct (xstep sl x) as [sl' o']|]; injection Hs as <- _; reflexivity. }
+    rewrite Hc. destruct (has_ret o); reflexivity.
+Qed.
+
 (* ---- every step, every trace ---------------------------------------------------------- *)
 
 Lemma step_ok s m e s' o :
-  Inv (s_rep s) (s_slot s) m -> step s e = (s', o) ->
+  Inv (s_rep s) (s_slot s) m -> Shut s m -> step s e = (s', o) ->
   chk_outs chk_all (mkCtx e (observe s')) (item_begin m) o = ""%string
   /\ Inv (s_rep s') (s_slot s') (mon_outs (mkCtx e (observe s')) (item_begin m) o).
 Proof.
-  intros Hinv Hs. destruct e as [r|x]; cbn [step] in Hs.
-  - eapply run_step_ok; [exact Hinv|exact Hs|reflexivity].
+  intros Hinv Hshut Hs. destruct e as [r|x]; cbn [step] in Hs.
+  - eapply run_step_ok; [exact Hinv|exact Hshut|exact Hs|reflexivity].
   - apply Inv_item_begin in Hinv. set (m0 := item_begin m) in *. clearbody m0.
     destruct (s_slot s) as [sl|] eqn:Esl.
     + destruct (xstep sl x) as [sl' o'] eqn:Ex. injection Hs as <- <-. cbn [s_rep s_slot].
       destruct Hinv as [H1 H2].
-      destruct (xstep_ok (mkCtx (EExec x) (observe (mkState (s_rep s) (s_prefer s) (s_until s) (s_next s) (Some sl') (s_nextid s))))
+      destruct (xstep_ok (mkCtx (EExec x) (observe (mkState (s_rep s) (s_prefer s) (s_until s) (s_next s) (Some sl') (s_nextid s) (s_cancelled s))))
                   _ _ _ _ _ _ H1 Ex) as [Hc Hi].
       split; [exact Hc|]. split; [exact Hi|].
-      destruct (xstep_frame (mkCtx (EExec x) (observe (mkState (s_rep s) (s_prefer s) (s_until s) (s_next s) (Some sl') (s_nextid s))))
+      destruct (xstep_frame (mkCtx (EExec x) (observe (mkState (s_rep s) (s_prefer s) (s_until s) (s_next s) (Some sl') (s_nextid s) (s_cancelled s))))
                   _ _ _ _ m0 Ex) as [Ho _].
       rewrite Ho. exact H2.
     + injection Hs as <- <-. cbn [chk_outs mon_outs mon_next emitted]. rewrite Esl.
@@ -656,20 +736,20 @@ Proof.
 Qed.
 
 Lemma trace_ok_gen evs : forall s m,
-  Inv (s_rep s) (s_slot s) m -> chk_trace chk_all m (trace s evs) = ""%string.
+  Inv (s_rep s) (s_slot s) m -> Shut s m -> chk_trace chk_all m (trace s evs) = ""%string.
 Proof.
-  induction evs as [|e r IH]; intros s m Hinv; cbn [trace chk_trace]; [reflexivity|].
+  induction evs as [|e r IH]; intros s m Hinv Hshut; cbn [trace chk_trace]; [reflexivity|].
   destruct (step s e) as [s' o] eqn:Es. cbn [chk_trace ctx_of i_ev i_outs i_obs].
-  destruct (step_ok _ _ _ _ _ Hinv Es) as [Hc Hi].
+  destruct (step_ok _ _ _ _ _ Hinv Hshut Es) as [Hc Hi].
   change (ctx_of (mkItem e o (observe s'))) with (mkCtx e (observe s')).
-  rewrite Hc. cbn [cat2 is_empty]. apply IH. exact Hi.
+  rewrite Hc. cbn [cat2 is_empty]. apply IH; [exact Hi|]. eapply step_shut; eassumption.
 Qed.
 
 Lemma Inv_init t0 : Inv (s_rep (init t0)) (s_slot (init t0)) mon_init.
 Proof. split; [split; [reflexivity|left; reflexivity]|discriminate]. Qed.
 
 Lemma all_checks_hold t0 evs : chk_trace chk_all mon_init (trace (init t0) evs) = ""%string.
-Proof. apply trace_ok_gen, Inv_init. Qed.
+Proof. apply trace_ok_gen; [apply Inv_init|reflexivity]. Qed.
 
 (* chk_all is the conjunction of the five checks. *)
 Lemma chk_all_split c m o : chk_all c m o = ""%string ->
@@ -732,7 +812,7 @@ Proof.
             | Some x => let '(x', o) := xsteps x (r_sync r) in (Some x', o)
             | None => (None, [])
             end) as [sl4 o4].
-  assert (H : forall tl, has_sync (([] ++ o2 ++ [OSync rep (if r_shutdown r then true else p) true] ++ o4) ++ tl) = true).
+  assert (H : forall tl, has_sync (([] ++ o2 ++ [OSync rep (if sd_sync s r then true else p) true] ++ o4) ++ tl) = true).
   { intros tl. rewrite !has_sync_app. cbn. rewrite !orb_true_r. reflexivity. }
   destruct (r_reply r) as [|[ts|] ds]; cbn [snd]; try apply H.
   destruct ds; cbn [snd]; try apply H. destruct ce; cbn [snd]; apply H.
@@ -767,7 +847,7 @@ Proof.
       destruct (xstep sl x) as [sl' o] eqn:Ex. cbn [fst]. intros Hu. cbn [s_until s_slot] in *.
       eapply xstep_fin_mono; [exact Ex|]. specialize (Hq Hu). rewrite Esl in Hq. exact Hq. }
   unfold run_step.
-  destruct (r_shutdown r && match s_until s with None => true | Some u => u <? r_now r end); [exact Hq|].
+  destruct (sd_top s r && match s_until s with None => true | Some u => u <? r_now r end); [exact Hq|].
   destruct (negb (is_some (s_until s)) && negb (r_ready r)); [exact Hq|].
   destruct (phase_updates (s_rep s) (s_next s) (r_now r) (s_slot s) (r_sel r)) as [[[rep next] sl] o2] eqn:Ep.
   destruct (prefer_of rep (s_until s)) as [p ce] eqn:Epf.
@@ -795,18 +875,19 @@ Proof.
   - (* idle *) intros _. exact I.
 Qed.
 
-Lemma run_quiet evs : forall s m, Inv (s_rep s) (s_slot s) m -> quiet s -> quiet (run s evs).
+Lemma run_quiet evs : forall s m, Inv (s_rep s) (s_slot s) m -> Shut s m -> quiet s -> quiet (run s evs).
 Proof.
-  induction evs as [|e r IH]; intros s m Hinv Hq; cbn [run]; [exact Hq|].
+  induction evs as [|e r IH]; intros s m Hinv Hshut Hq; cbn [run]; [exact Hq|].
   destruct (step s e) as [s' o] eqn:Es.
-  destruct (step_ok _ _ _ _ _ Hinv Es) as [_ Hi]. cbn [fst].
-  eapply IH; [exact Hi|]. pose proof (step_quiet s m e Hinv Hq) as H. rewrite Es in H. exact H.
+  destruct (step_ok _ _ _ _ _ Hinv Hshut Es) as [_ Hi]. cbn [fst].
+  eapply IH; [exact Hi|eapply step_shut; eassumption|].
+  pose proof (step_quiet s m e Hinv Hq) as H. rewrite Es in H. exact H.
 Qed.
 
 Lemma until_none_nothing_running_holds t0 evs :
   let s := run (init t0) evs in
   s_until s = None -> match s_slot s with Some x => x_finished x = true | None => True end.
-Proof. apply (run_quiet evs (init t0) mon_init); [apply Inv_init|]. intros _. exact I. Qed.
+Proof. apply (run_quiet evs (init t0) mon_init); [apply Inv_init|reflexivity|]. intros _. exact I. Qed.
 
 (* ---- the channel never holds more than its capacity -------------------------------- *)
 
@@ -890,7 +971,7 @@ Proof.
   2:{ destruct (s_slot s) as [sl|] eqn:Esl; [|cbn; rewrite Esl; exact I].
       destruct (xstep sl x) as [sl' o] eqn:Ex. cbn. eapply xstep_chan_ok; eassumption. }
   unfold run_step.
-  destruct (r_shutdown r && match s_until s with None => true | Some u => u <? r_now r end); [exact H|].
+  destruct (sd_top s r && match s_until s with None => true | Some u => u <? r_now r end); [exact H|].
   destruct (negb (is_some (s_until s)) && negb (r_ready r)); [exact H|].
   destruct (phase_updates (s_rep s) (s_next s) (r_now r) (s_slot s) (r_sel r)) as [[[rep next] sl] o2] eqn:Ep.
   destruct (prefer_of rep (s_until s)) as [p ce].
@@ -920,11 +1001,12 @@ Qed.
 (* ---- the end-of-item check ------------------------------------------------------------ *)
 
 Lemma end_trace_gen evs : forall s m,
-  Inv (s_rep s) (s_slot s) m -> quiet s -> end_trace m (trace s evs) = ""%string.
+  Inv (s_rep s) (s_slot s) m -> Shut s m -> quiet s -> end_trace m (trace s evs) = ""%string.
 Proof.
-  induction evs as [|e r IH]; intros s m Hinv Hq; cbn [trace end_trace]; [reflexivity|].
+  induction evs as [|e r IH]; intros s m Hinv Hshut Hq; cbn [trace end_trace]; [reflexivity|].
   destruct (step s e) as [s' o] eqn:Es. cbn [end_trace ctx_of i_ev i_outs i_obs].
-  destruct (step_ok _ _ _ _ _ Hinv Es) as [_ Hi].
+  destruct (step_ok _ _ _ _ _ Hinv Hshut Es) as [_ Hi].
+  pose proof (step_shut _ _ _ _ _ (observe s') Hshut Es) as Hshut'.
   pose proof (step_quiet s m e Hinv Hq) as Hq'. rewrite Es in Hq'. cbn [fst] in Hq'.
   change (ctx_of (mkItem e o (observe s'))) with (mkCtx e (observe s')).
   set (m' := mon_outs (mkCtx e (observe s')) (item_begin m) o) in *.
@@ -938,5 +1020,5 @@ Qed.
 
 Lemma until_nil_means_idle_holds t0 evs : end_ok (trace (init t0) evs) = true.
 Proof.
-  unfold end_ok. apply is_empty_true. apply end_trace_gen; [apply Inv_init|]. intros _. exact I.
+  unfold end_ok. apply is_empty_true. apply end_trace_gen; [apply Inv_init|reflexivity|]. intros _. exact I.
 Qed.
